@@ -58,6 +58,27 @@ theorem fires_if_outlives {s : State} (id i : Nat) (l : Level) (b : Bool)
   · simp [step, hf, hi, h3, ha]
   · simp [step, hf, hi, h3, ha]
 
+/-- **The interruptor gives up after three refusals.**  On its third try (`i = 2`) a refusal ends
+the interruptor: no interrupt is pending because of it, the throw log is unchanged, its state is
+`done` with the `failed` mark (= the loop exception handler is called with message, task and
+exception), and from then on no `istep` of this level is enabled at all — the target is not
+interrupted later on behalf of this block. -/
+theorem interruptor_gives_up_after_three_refusals (s : State) (id : Nat) (l : Level) (b : Bool)
+    (hf : findLevel s id = some (l, b)) (hi : l.ist = .at 2) (ha : l.active = true) :
+    ∃ s', step s (.istep id .refused) = some s' ∧ s'.pending = s.pending ∧ s'.throws = s.throws
+      ∧ (∃ l', findLevel s' id = some (l', b) ∧ l'.ist = .done ∧ l'.failed = true)
+      ∧ ∀ r, step s' (.istep id r) = none := by
+  have hstep : step s (.istep id .refused) =
+      some (setLevel s id fun l => { l with ist := .done, failed := true }) := by
+    simp [step, hf, hi, ha]
+  have hfl : findLevel (setLevel s id fun l => { l with ist := .done, failed := true }) id
+      = some ({ l with ist := .done, failed := true }, b) := by
+    have := findLevel_setLevel s id (fun l => { l with ist := .done, failed := true }) (fun l => rfl)
+    rw [this, hf]; rfl
+  refine ⟨_, hstep, rfl, rfl, ⟨_, hfl, rfl, rfl⟩, ?_⟩
+  intro r
+  simp [step, hfl]
+
 /-- first element satisfying `p` -/
 theorem exists_first {α} (p : α → Prop) : ∀ (l : List α), (∃ x ∈ l, p x) →
     ∃ pre x post, l = pre ++ x :: post ∧ p x ∧ ∀ y ∈ pre, ¬ p y
